@@ -303,10 +303,39 @@ def rule_no_identity_in_messages(ctx, rep, rid: str) -> None:
                 rep.bad(rid, f"{f.qual}:{norm(x.func)}()", f"{f.qual} calls {norm(x.func)}(): address/hash-seed dependent value", f"{f.module.rel}:{x.lineno}")
             if isinstance(x, ast.Attribute) and x.attr == "__repr__" and norm(x.value) == "object":
                 rep.bad(rid, f"{f.qual}:object.__repr__", "default object repr contains an address", f"{f.module.rel}:{x.lineno}")
+        if _only_host_library_callback(ctx, f):
+            continue  # e.g. json.loads(parse_constant=fn): the host library supplies the arguments, not the script
         for name, line, raise_txt in _raw_value_placeholders(f.node, f):
             n += 1
             rep.bad(rid, f"{f.qual}:{{{name}}}", f"{f.qual} formats the script value `{name}` with the host's str()/repr() in a message ({raise_txt}): host callables and internal objects print as '<bound method … at 0x7f…>', an address that changes from run to run", f"{f.module.rel}:{line}")
         rep.ok(rid, f"{f.qual}:scanned")
+
+
+def _only_host_library_callback(ctx, f: Func) -> bool:
+    """f is a closure whose every use is as an argument of a call into an external (host library) function."""
+    if f.parent is None or isinstance(f.node, ast.Lambda):
+        return False
+    scope = [f.parent]
+    for g in ctx.tree.funcs:
+        h = g.parent
+        while h is not None:
+            if h is f.parent and g is not f:
+                scope.append(g)
+                break
+            h = h.parent
+    uses = [n for g in scope for n in g.own_nodes() if isinstance(n, ast.Name) and n.id == f.name and isinstance(n.ctx, ast.Load)]
+    if not uses:
+        return False
+    for u in uses:
+        p = getattr(u, "_parent", None)
+        if isinstance(p, ast.keyword):
+            p = getattr(p, "_parent", None)
+        if not isinstance(p, ast.Call) or u is p.func:
+            return False
+        cs = ctx.cg.site_of_call.get(id(p))
+        if cs is None or cs.kind != "external":
+            return False
+    return True
 
 
 def _raw_value_placeholders(fn_node: ast.AST, f: Optional[Func] = None) -> List[Tuple[str, int, str]]:
